@@ -192,6 +192,14 @@ def sweep_cases(rng, variant, lay, spec, max_w, per_wide, all_chars=True):
             m = rng.randint(0, nchars)
             codes = [rng.choice([c for c in range(1, 64) if c != 32]) for _ in range(m)] + [0] * (nchars - m)
             yield ('text-canonical', cc.set_field(base, off, w - w % 6, int(''.join(format(c, '06b') for c in codes) or '0', 2)))
+            # structured tails: '@' and blanks in every short arrangement after some characters (what a terminator /
+            # padding rule has to get right: "AB@  @@", "AB  @@@", "AB@CD@@", "AB @ @@", "@AB@@@")
+            if nchars >= 4:
+                for tail in ([0, 32, 32], [32, 32, 0], [0, 33, 34], [32, 0, 32], [0, 32, 33], [32, 32, 32]):
+                    m = rng.randint(0, nchars - len(tail))
+                    codes = [rng.choice([c for c in range(1, 64) if c != 32]) for _ in range(m)] + tail
+                    codes += [0] * (nchars - len(codes))
+                    yield ('text-tail', cc.set_field(base, off, w - w % 6, int(''.join(format(c, '06b') for c in codes), 2)))
             continue
         if k in ('D', 'X'):
             for raw in (0, (1 << w) - 1, 1, 1 << (w - 1)):
